@@ -439,12 +439,14 @@ func (fr *Frame) appendBuiltin(args []Val, resT types.Type, st *State, reach str
 	noop := c.smt.define("apnoop", "Bool", eq(n2, "0"))
 	r := c.smt.define("ap", "Slice", ite(noop, s, ite(inPlace,
 		fmt.Sprintf("(mk_slice (sl_base %s) (sl_off %s) %s (sl_cap %s))", s, s, newLen, s),
-		fmt.Sprintf("(mk_slice %s 0 %s %s)", nb, newLen, ncap))))
-	// contents of the result's backing array
+		fmt.Sprintf("(mk_slice %s (sl_off %s) %s %s)", nb, s, newLen, ncap))))
+	// contents of the result's backing array. A grown slice is modelled at the same offset inside its fresh
+	// array as the old slice had in the old one (offsets are not observable in Go), so that the copied prefix
+	// sits at the same positions: arr[i] == old[i], no index arithmetic for the solvers to match through.
 	arr := c.smt.declareFresh("aparr", "(Array Int "+es+")")
 	oldArr := sel(h, app("sl_base", s))
 	ro := app("sl_off", r)
-	c.smt.assume(fmt.Sprintf("(forall ((i Int)) (! (and (=> (and (<= %[1]s i) (< i (+ %[1]s (sl_len %[2]s)))) (= (select %[3]s i) (select %[4]s (+ (sl_off %[2]s) (- i %[1]s))))) (=> (and (<= (+ %[1]s (sl_len %[2]s)) i) (< i (+ %[1]s %[5]s))) (= (select %[3]s i) %[6]s)) (=> (and %[7]s (or (< i (sl_off %[2]s)) (>= i (+ (sl_off %[2]s) %[5]s)))) (= (select %[3]s i) (select %[4]s i)))) :pattern ((select %[3]s i))))",
+	c.smt.assume(fmt.Sprintf("(forall ((i Int)) (! (and (=> (and (<= %[1]s i) (< i (+ %[1]s (sl_len %[2]s)))) (= (select %[3]s i) (select %[4]s i))) (=> (and (<= (+ %[1]s (sl_len %[2]s)) i) (< i (+ %[1]s %[5]s))) (= (select %[3]s i) %[6]s)) (=> (and %[7]s (or (< i (sl_off %[2]s)) (>= i (+ (sl_off %[2]s) %[5]s)))) (= (select %[3]s i) (select %[4]s i)))) :pattern ((select %[3]s i))))",
 		ro, s, arr, oldArr, newLen, src(fmt.Sprintf("(- i (+ %s (sl_len %s)))", ro, s)), inPlace), "append: contents")
 	c.heapSet(st, name, sort, ite(noop, h, sto(h, app("sl_base", r), arr)))
 	c.heapSet(st, "alloc", allocSort, ite(or(noop, inPlace), al, sto(al, nb, "true")))
@@ -818,12 +820,12 @@ func (fr *Frame) appendOne(args []Val, v Val, resT types.Type, st *State) Val {
 	c.smt.assume(and(app(">=", ncap, newLen), app("<=", ncap, "72057594037927936")), "")
 	r := c.smt.define("ap", "Slice", ite(inPlace,
 		fmt.Sprintf("(mk_slice (sl_base %s) (sl_off %s) %s (sl_cap %s))", s, s, newLen, s),
-		fmt.Sprintf("(mk_slice %s 0 %s %s)", nb, newLen, ncap)))
+		fmt.Sprintf("(mk_slice %s (sl_off %s) %s %s)", nb, s, newLen, ncap)))
 	oldArr := sel(h, app("sl_base", s))
 	// reallocation: the prefix is copied
 	arr := c.smt.declareFresh("aparr", "(Array Int "+es+")")
-	c.smt.assume(fmt.Sprintf("(forall ((i Int)) (! (=> (and (<= 0 i) (< i (sl_len %[1]s))) (= (select %[2]s i) (select %[3]s (+ (sl_off %[1]s) i)))) :pattern ((select %[2]s i))))", s, arr, oldArr), "append: contents")
-	c.smt.assume(eq(sel(arr, app("sl_len", s)), vt), "append: appended element")
+	c.smt.assume(fmt.Sprintf("(forall ((i Int)) (! (=> (and (<= (sl_off %[1]s) i) (< i (+ (sl_off %[1]s) (sl_len %[1]s)))) (= (select %[2]s i) (select %[3]s i))) :pattern ((select %[2]s i))))", s, arr, oldArr), "append: contents (same offset in the fresh array)")
+	c.smt.assume(eq(sel(arr, app("+", app("sl_off", s), app("sl_len", s))), vt), "append: appended element")
 	c.heapSet(st, name, sort, ite(inPlace,
 		sto(h, app("sl_base", s), sto(oldArr, app("+", app("sl_off", s), app("sl_len", s)), vt)),
 		sto(h, nb, arr)))
@@ -854,10 +856,17 @@ func (fr *Frame) callsiteChecks(cc *ssa.CallCommon, args []Val, st *State, reach
 	}
 	for _, cl := range fr.contract.clauses("callsite") {
 		if cl.Label != name {
-			// Name#k: the k-th call of Name in source order
-			i := strings.Index(cl.Label, "#")
-			if i < 0 || cl.Label[:i] != name || cl.Label[i+1:] != fmt.Sprint(fr.callOrdinal(name, pos)) {
-				continue
+			if j := strings.Index(cl.Label, "["); j > 0 && strings.HasSuffix(cl.Label, "]") {
+				// Name[text]: the calls of Name whose source text contains `text` (robust against reordering of calls)
+				if cl.Label[:j] != name || !strings.Contains(strings.Join(strings.Fields(fr.c.eng.srcText(pos, "call")), ""), cl.Label[j+1:len(cl.Label)-1]) {
+					continue
+				}
+			} else {
+				// Name#k: the k-th call of Name in source order
+				i := strings.Index(cl.Label, "#")
+				if i < 0 || cl.Label[:i] != name || cl.Label[i+1:] != fmt.Sprint(fr.callOrdinal(name, pos)) {
+					continue
+				}
 			}
 		}
 		env := fr.env(st)
@@ -866,6 +875,10 @@ func (fr *Frame) callsiteChecks(cc *ssa.CallCommon, args []Val, st *State, reach
 				v := args[i]
 				v.T = sig.Params().At(i).Type()
 				env.names[n] = v
+				if env.bound == nil {
+					env.bound = map[string]bool{}
+				}
+				env.bound[n] = true // the callee's parameter, even when the caller has a variable of that name
 			}
 			env.names[fmt.Sprintf("arg%d", i)] = args[i]
 		}
